@@ -468,7 +468,7 @@ macro_rules! exhaust_type {
     ($rep:expr, $T:ident, $tname:expr, $lo:expr, $hi:expr) => {{
         let rep: &mut Report = $rep;
         let inr = |n: u32| ($lo..=$hi).contains(&n);
-        let mut verdict = |rep: &mut Report, entry: &str, n: u32, input: String, got: Option<u16>| {
+        let verdict = |rep: &mut Report, entry: &str, n: u32, input: String, got: Option<u16>| {
             let want = inr(n);
             rep.eval(format!("{}|{entry}|{}|{}", $tname, region(n), if got.is_some() { "accepted" } else { "refused" }));
             match got {
@@ -908,7 +908,7 @@ fn live_client(rep: &mut Report, addr: std::net::SocketAddr, seed: u64, shard: u
             );
             None
         };
-        if let (Some(ws), true) = (want_status, true) {
+        if let Some(ws) = want_status {
             if resp.status != ws {
                 // status of successes / stated framework errors: part of other
                 // properties except for raised errors; only record
